@@ -20,6 +20,8 @@ import GunYu.Gen.BisyncTags
 namespace GunYu.BisyncUnit
 open GunYu
 
+deriving instance DecidableEq for Except
+
 /-- a Redis command as the tool carries it (`bisyncAofCommand{Cmd, Args}`) -/
 structure Cmd where
   name : Bytes
